@@ -10,6 +10,8 @@ import (
 	"strings"
 
 	"gitlab.com/gomidi/midi/v2/drivers/midicat"
+	cc "gitlab.com/gomidi/midi/v2/internal/verifh/conccases"
+	cp "gitlab.com/gomidi/midi/v2/internal/verifh/concpairs"
 	"gitlab.com/gomidi/midi/v2/internal/verifh/engine"
 	"gitlab.com/gomidi/midi/v2/internal/verifh/faultio"
 )
@@ -479,6 +481,9 @@ func twoStreams() {
 func main() {
 	ctx = engine.Start("C19", "exploration")
 	if ctx.ReplayPath != "" {
+		if cp.Replay(ctx, ctx.LoadReplay(), "midicat", cc.Midicat()) {
+			ctx.Finish("replay")
+		}
 		m := ctx.LoadReplay()
 		if m["kind"] == "two-streams" {
 			twoStreams()
@@ -494,6 +499,10 @@ func main() {
 	}
 	ctx.Assume("line grammar: -?[0-9]+ ' ' ([0-9A-F][0-9A-F])+ '\\n'; malformed = odd hex length, non-hex character in the hex part, missing or repeated separator, missing terminator; don't care = lower-case hex, sign/garbage/overflow in the decimal part, empty message")
 	ctx.Assume("readers fragment but never return data together with EOF and never return zero bytes")
+	ctx.Jobs("concurrent", 1, func(int) {
+		cp.Litmus(ctx)
+		cp.Check(ctx, "midicat", cc.Midicat())
+	})
 	ctx.Jobs("lossless", 16, func(j int) { losslessSpace(j, 16) })
 	ctx.Jobs("mutations", 16, func(j int) { mutations(j, 16) })
 	ctx.Jobs("edges", 16, func(j int) { edges(j, 16) })
